@@ -3,11 +3,52 @@
 //! B: KhHomology::into_bigraded of the total homology).  The check module evaluates the
 //! universal-coefficient relations on these tables and compares with the oracle on small diagrams.
 //! case line:  tb <npos> <nneg> <oracle:0|1> ; <link>
-//! result   :  segments "<ring><route><red>[cells]" e.g. ZA0[(i,j)=r/t ...] QA0[..] ... joined by spaces
+//! result   :  segments "<ring><route><red>[cells]" e.g. ZA0[(i,j)=r/t ...] QA0[..] ... joined by spaces; after ZB<red> a
+//!   segment NHD<red>[i ..] = the homological degrees in which the total homology that produced ZB<red> has a generator
+//!   that is not q-homogeneous
+//! case line:  ig <ring:Z|B> <red:0|1> ; <link> ; <dump>      (route via the total homology against Model/IntoBigraded.v)
+//!   <dump> = what collect_gen_info / into_bigraded read of KhHomology::<i64|BigInt>::new(l, 0, 0, red): per
+//!   homological degree of the support, in support order, "H <i> <rank> <ntors> <t_1> .. <t_n> <gen_0> .. <gen_(r+t-1)>"
+//!   where <gen_k> lists the q-degrees of the terms of h[i].gen(k) as "q^count,q^count,.." ("-" = empty chain);
+//!   "P" when the library panicked while the dump was taken (the model then answers SKIP-P).
+//! result   :  "NH=<number of dumped generators that are not q-homogeneous> S=<cells>:<first>:<last> (i,j)=r/t1.t2 .." =
+//!   support size / first / last index and the non-zero cells of h.into_bigraded() of the SAME object, in support
+//!   order, torsion in the order the library lists it (not normalised, not sorted).
 use num_bigint::BigInt;
+use std::collections::BTreeMap;
+use yui::{EucRing, EucRingOps};
+use yui_homology::{GridTrait, SummandTrait};
+use yui_kh::kh::KhHomology;
 use yui_link::Link;
 use yui_verif_harness::khutil::*;
 use yui_verif_harness::*;
+
+/// the integral table through the total homology (KhHomology::new(..).into_bigraded(), which is what
+/// KhHomologyBigraded::new does; rendered as khutil::kh_table_bigraded renders it) together with the homological degrees in
+/// which that SAME total homology has a generator whose terms do not all have one q-degree
+fn via_total_z(l: &Link, red: bool) -> (String, String) {
+    let h = KhHomology::<i64>::new(l, &0, &0, red);
+    let mut nhd: Vec<String> = vec![];
+    for i in h.support() {
+        let s = &h[i];
+        let inhom = (0..s.rank() + s.tors().len()).any(|k| {
+            let z = s.gen(k);
+            let mut it = z.gens().map(|x| x.q_deg());
+            match it.next() { Some(q) => it.any(|q2| q2 != q), None => false }
+        });
+        if inhom { nhd.push(i.to_string()); }
+    }
+    let kh = h.into_bigraded();
+    let mut v: Vec<((isize, isize), String)> = vec![];
+    for idx in kh.support() {
+        let s = &kh[(idx.0, idx.1)];
+        if !s.is_zero() {
+            v.push(((idx.0, idx.1), summand_str(s, true)));
+        }
+    }
+    v.sort();
+    (v.iter().map(|((i, j), s)| format!("({},{})={}", i, j, s)).collect::<Vec<_>>().join(" "), nhd.join(" "))
+}
 
 fn all_tables(l: &Link) -> String {
     let mut out = vec![];
@@ -17,7 +58,13 @@ fn all_tables(l: &Link) -> String {
         let r = red as u8;
         for via_total in [false, true] {
             let rt = if via_total { "B" } else { "A" };
-            out.push(format!("Z{}{}[{}]", rt, r, kh_table_bigraded::<i64>(l, red, true, via_total)));
+            if via_total {
+                let (tbl, nhd) = via_total_z(l, red);
+                out.push(format!("ZB{}[{}]", r, tbl));
+                out.push(format!("NHD{}[{}]", r, nhd));
+            } else {
+                out.push(format!("Z{}{}[{}]", rt, r, kh_table_bigraded::<i64>(l, red, true, via_total)));
+            }
             out.push(format!("Q{}{}[{}]", rt, r, kh_table_bigraded::<Q>(l, red, false, via_total)));
             out.push(format!("F2{}{}[{}]", rt, r, kh_table_bigraded::<F2>(l, red, false, via_total)));
             out.push(format!("F3{}{}[{}]", rt, r, kh_table_bigraded::<F3>(l, red, false, via_total)));
@@ -31,14 +78,82 @@ fn all_tables(l: &Link) -> String {
     out.join(" ")
 }
 
+/// the data collect_gen_info reads of the total homology (through the public API), and the library's into_bigraded
+/// table of the same object; None = panic
+fn into_bigraded_dump<R>(l: &Link, red: bool) -> Option<(String, String)>
+where
+    R: EucRing + std::fmt::Display,
+    for<'x> &'x R: EucRingOps<R>,
+{
+    guarded(|| {
+        let z = R::zero();
+        let h = KhHomology::<R>::new(l, &z, &z, red);
+        let mut dump: Vec<String> = vec![];
+        let mut nh = 0usize;
+        for i in h.support() {
+            let s = &h[i];
+            let (r, t) = (s.rank(), s.tors().len());
+            let mut w = vec![format!("H {} {} {}", i, r, t)];
+            for a in s.tors() { w.push(a.to_string()); }
+            for k in 0..r + t {
+                let zk = s.gen(k);
+                let mut qs: BTreeMap<isize, usize> = BTreeMap::new();
+                for x in zk.gens() { *qs.entry(x.q_deg()).or_insert(0) += 1; }
+                if qs.len() > 1 { nh += 1; }
+                if qs.is_empty() {
+                    w.push("-".into());
+                } else {
+                    w.push(qs.iter().map(|(q, n)| format!("{}^{}", q, n)).collect::<Vec<_>>().join(","));
+                }
+            }
+            dump.push(w.join(" "));
+        }
+        let b = h.into_bigraded();
+        let sup: Vec<_> = b.support().collect();
+        let mut cells = vec![format!("NH={}", nh)];
+        cells.push(match (sup.first(), sup.last()) {
+            (Some(a), Some(z)) => format!("S={}:({},{}):({},{})", sup.len(), a.0, a.1, z.0, z.1),
+            _ => "S=0".into(),
+        });
+        for idx in sup {
+            let c = &b[(idx.0, idx.1)];
+            if c.rank() > 0 || !c.tors().is_empty() {
+                let t: Vec<String> = c.tors().iter().map(|a| a.to_string()).collect();
+                cells.push(format!("({},{})={}/{}", idx.0, idx.1, c.rank(), t.join(".")));
+            }
+        }
+        (dump.join(" "), cells.join(" "))
+    })
+}
+
+/// (case line, result line) of an `ig` case; the dump part of the case line is produced here
+fn ig_case(ring: &str, red: bool, link: &str) -> (String, String) {
+    let l = parse_link(link);
+    let r = if ring == "B" { into_bigraded_dump::<BigInt>(&l, red) } else { into_bigraded_dump::<i64>(&l, red) };
+    let head = format!("ig {} {} ;{};", ring, red as u8, link.trim_end());
+    match r {
+        Some((d, t)) => (format!("{} {}", head, d), t),
+        None => (format!("{} P", head), "P".into()),
+    }
+}
+
+/// an `ig` line (with or without a dump) -> (ring, red, link)
+fn ig_parts(line: &str) -> (String, bool, String) {
+    let mut it = line.splitn(3, ';');
+    let head: Vec<&str> = it.next().unwrap().split_whitespace().collect();
+    let link = it.next().unwrap_or("").to_string();
+    (head[1].to_string(), head[2] == "1", link)
+}
+
 fn run_case(line: &str) -> String {
     let (head, link) = line.split_once(';').unwrap();
     let l = parse_link(link);
     if head.starts_with("wt") {
         // witness replay: only the integral unreduced tables through both routes
-        return guarded(|| format!("ZA0[{}] ZB0[{}]",
-            kh_table_bigraded::<i64>(&l, false, true, false),
-            kh_table_bigraded::<i64>(&l, false, true, true))).unwrap_or("P".into());
+        return guarded(|| {
+            let (tbl, nhd) = via_total_z(&l, false);
+            format!("ZA0[{}] ZB0[{}] NHD0[{}]", kh_table_bigraded::<i64>(&l, false, true, false), tbl, nhd)
+        }).unwrap_or("P".into());
     }
     guarded(|| all_tables(&l)).unwrap_or("P".into())
 }
@@ -61,6 +176,13 @@ fn main() {
         Mode::Replay { file, out } => {
             let mut o = Out::new(&out);
             for l in read_lines(&file) {
+                if l.starts_with("ig ") {
+                    // the dump is taken again from the link (generators depend on the run's hash order)
+                    let (ring, red, link) = ig_parts(&l);
+                    let (c, res) = ig_case(&ring, red, &link);
+                    o.case(&c, &res);
+                    continue;
+                }
                 let res = run_case(&l);
                 o.case(&l, &res);
             }
@@ -127,9 +249,28 @@ fn main() {
             if let Some(c) = case_line(&Link::from_pd_code(w), false).map(|c| c.replacen("tb", "wt", 1)) {
                 cases.insert(0, c);
             }
+            // route via the total homology against the model of into_bigraded: every diagram of the corpus (i64,
+            // unreduced and reduced; BigInt too for small ones) and the witness of the known finding (BigInt, unreduced)
+            let mut igs: Vec<String> = vec![];
+            for c in &cases {
+                let (head, link) = c.split_once(';').unwrap();
+                let wt = head.starts_with("wt");
+                let ncross = if link.trim().is_empty() { 0 } else { link.split(',').count() };
+                let empty = parse_link(link).is_empty();
+                for red in [false, true] {
+                    if red && (empty || wt) { continue; }
+                    // the witness over BigInt only (as fast as i64 there, and no machine-width overflow in a 27-crossing run)
+                    if !wt { igs.push(format!("ig Z {} ;{}", red as u8, link)); }
+                    if ncross <= 7 || wt { igs.push(format!("ig B {} ;{}", red as u8, link)); }
+                }
+            }
+            let nt = cases.len();
+            cases.extend(igs);
             use rayon::prelude::*;
-            let results: Vec<String> = cases.par_iter().map(|c| run_case(c)).collect();
-            for (c, res) in cases.iter().zip(results.iter()) {
+            let results: Vec<(String, String)> = cases.par_iter().enumerate().map(|(k, c)| {
+                if k < nt { (c.clone(), run_case(c)) } else { let (ring, red, link) = ig_parts(c); ig_case(&ring, red, &link) }
+            }).collect();
+            for (c, res) in results.iter() {
                 o.case(c, res);
             }
             o.finish();
